@@ -272,7 +272,9 @@ def run_case(case):
                     k_ = 1 + c % (len(cur) - 1)
                     tgt = cur[k_:] + cur[:k_] if e % 3 else cur[1:] + [new]
                     mp = dict(zip(cur, tgt))
-                    lib(lambda: ds.rename_axes(dict(mp)), what=what + " rename_axes(%s)" % (mp,), sig=sig)
+                    mp_arg = dict(mp)
+                    lib(lambda: ds.rename_axes(mp_arg), what=what + " rename_axes(%s)" % (mp,), sig=sig)
+                    check(mp_arg == mp, "mapper-argument-modified", {"what": what + " rename_axes(mapping)", "now": core.jsonable(mp_arg)}, sig)
                     m.axes = collections.OrderedDict((mp[d], l) for d, l in m.axes.items())
                     m.vars = collections.OrderedDict((kk, (tuple(mp[d] for d in dd), v)) for kk, (dd, v) in m.vars.items())
                     m.free = set(mp[d] for d in m.free)
@@ -349,7 +351,9 @@ def run_case(case):
                     m.axes[d] = list(new)
                 elif mode == 1:
                     mapper = {m.axes[d][0]: new[0]} if new[0] not in m.axes[d][1:] else {}
-                    lib(lambda: ds.set_axis(dict(mapper), axis=axis_arg), what=what + " set_axis(mapper %s, axis=%r)" % (mapper, axis_arg), sig=sig)
+                    mapper_arg = dict(mapper)      # (the mapping is the caller's: it can be used again afterwards)
+                    lib(lambda: ds.set_axis(mapper_arg, axis=axis_arg), what=what + " set_axis(mapper %s, axis=%r)" % (mapper, axis_arg), sig=sig)
+                    check(mapper_arg == mapper, "mapper-argument-modified", {"what": what + " set_axis(mapper)", "now": core.jsonable(mapper_arg), "was": core.jsonable(mapper)}, sig)
                     if mapper:
                         m.axes[d] = [new[0]] + list(m.axes[d][1:])
                 elif mode == 2:
